@@ -185,6 +185,81 @@ func buildStruct(a []string) (reflect.Value, bool) {
 	return v, true
 }
 
+// embeddedParagraph returns a deep copy of the struct's embedded control.Paragraph (if it has one)
+func embeddedParagraph(v reflect.Value) (control.Paragraph, bool) {
+	t := v.Type()
+	for i := 0; i < t.NumField(); i++ {
+		if t.Field(i).Anonymous && t.Field(i).Type == paragraphType {
+			p := v.Field(i).Interface().(control.Paragraph)
+			c := control.Paragraph{Order: append([]string{}, p.Order...), Values: map[string]string{}}
+			for k, x := range p.Values {
+				c.Values[k] = x
+			}
+			return c, true
+		}
+	}
+	return control.Paragraph{}, false
+}
+
+func sameParagraph(a, b control.Paragraph) bool {
+	if len(a.Order) != len(b.Order) || len(a.Values) != len(b.Values) {
+		return false
+	}
+	for i := range a.Order {
+		if a.Order[i] != b.Order[i] {
+			return false
+		}
+	}
+	for k, x := range a.Values {
+		if y, ok := b.Values[k]; !ok || x != y {
+			return false
+		}
+	}
+	return true
+}
+
+// marshalHistory marshals ONE struct value the way a program does over its lifetime: Marshal, ConvertToParagraph,
+// Marshal again.  Marshalling is a pure function of the value: every pass gives the same text, ConvertToParagraph
+// writes out as that text, and the value (its embedded paragraph included) is the same afterwards.  Any departure
+// is reported as an anomaly label instead of the text.
+func marshalHistory(v reflect.Value) (string, string) {
+	before, has := embeddedParagraph(v.Elem())
+	shown := showRecord(v.Elem())
+	var buf bytes.Buffer
+	if err := control.Marshal(&buf, v.Interface()); err != nil {
+		return "", "err"
+	}
+	first := buf.String()
+	para, err := control.ConvertToParagraph(v.Interface())
+	if err != nil || para == nil {
+		return "", "convert-err-after-marshal"
+	}
+	var pb bytes.Buffer
+	if err := para.WriteTo(&pb); err != nil {
+		return "", "convert-err-after-marshal"
+	}
+	if pb.String() != first {
+		return "", "convert-differs-from-marshal"
+	}
+	var buf2 bytes.Buffer
+	if err := control.Marshal(&buf2, v.Interface()); err != nil {
+		return "", "second-marshal-err"
+	}
+	if buf2.String() != first {
+		return "", "second-marshal-differs"
+	}
+	if has {
+		after, _ := embeddedParagraph(v.Elem())
+		if !sameParagraph(before, after) {
+			return "", "marshal-changed-embedded-paragraph"
+		}
+	}
+	if showRecord(v.Elem()) != shown {
+		return "", "marshal-changed-struct"
+	}
+	return first, ""
+}
+
 func init() {
 	ops["cunmarshal"] = func(a []string) string {
 		if _, ok := probe.Types[arg(a, 0)]; !ok {
@@ -201,26 +276,26 @@ func init() {
 		if !ok {
 			return "no-such-type"
 		}
-		var buf bytes.Buffer
-		if err := control.Marshal(&buf, v.Interface()); err != nil {
-			return "err"
+		text, anomaly := marshalHistory(v)
+		if anomaly != "" {
+			return anomaly
 		}
-		return "ok " + hx(buf.String())
+		return "ok " + hx(text)
 	}
 	ops["croundtrip"] = func(a []string) string {
 		v, ok := buildStruct(a)
 		if !ok {
 			return "no-such-type"
 		}
-		var buf bytes.Buffer
-		if err := control.Marshal(&buf, v.Interface()); err != nil {
-			return "err"
+		text, anomaly := marshalHistory(v)
+		if anomaly != "" {
+			return anomaly
 		}
 		w := probe.New(arg(a, 0))
-		if err := control.Unmarshal(w.Interface(), bytes.NewReader(buf.Bytes())); err != nil {
-			return "ok " + hx(buf.String()) + " err"
+		if err := control.Unmarshal(w.Interface(), strings.NewReader(text)); err != nil {
+			return "ok " + hx(text) + " err"
 		}
-		return "ok " + hx(buf.String()) + " ok " + showRecord(w.Elem())
+		return "ok " + hx(text) + " ok " + showRecord(w.Elem())
 	}
 	// cptr mask version dep arch text num: a struct whose optional fields are POINTERS (nil when the mask bit is 0).
 	// Marshalling it must not panic; a nil pointer is an absent field, a non-nil one is written as its value.
@@ -391,6 +466,9 @@ func init() {
 				add("GetConflicts", x.GetConflicts())
 				add("GetPreDepends", x.GetPreDepends())
 				add("GetBreaks", x.GetBreaks())
+				add("GetSuggests", x.GetSuggests())
+				add("GetReplaces", x.GetReplaces())
+				add("GetBuiltUsing", x.GetBuiltUsing())
 			}
 		case "source_index":
 			xs, err := control.ParseSourceIndex(rd)
@@ -402,6 +480,7 @@ func init() {
 			calls = func() {
 				add("GetBuildDepends", x.GetBuildDepends())
 				add("GetBuildDependsIndep", x.GetBuildDependsIndep())
+				add("GetBuildDependsArch", x.GetBuildDependsArch())
 			}
 		case "best_checksums":
 			var b control.BestChecksums
@@ -415,6 +494,11 @@ func init() {
 					cs = append(cs, showFileHash(c))
 				}
 				out = append(out, "Checksums="+showList(cs))
+				bh := []string{}
+				for _, c := range b.Checksums() {
+					bh = append(bh, hx(c.ByHashPath("dists/sid/main/source/Sources")))
+				}
+				out = append(out, "ByHashPaths="+showList(bh))
 			}
 		case "deb_control":
 			var c deb.Control
@@ -440,6 +524,76 @@ func init() {
 	}
 	// tdocfile kind text: the file-based parsers (ParseDscFile, ParseChangesFile, ParseControlFile) on a real file
 	// against the reader-based ones given the same path
+	// tondemand kind text: the on-demand dependency accessors of the first entry of a Packages / Sources index, in a
+	// fixed order (these fields are not struct fields: the accessors parse the embedded paragraph's text on demand)
+	ops["tondemand"] = func(a []string) string {
+		rd := bufio.NewReader(strings.NewReader(arg(a, 1)))
+		out := []string{}
+		add := func(name string, d dependency.Dependency) { out = append(out, name+"="+showDep(&d)) }
+		switch arg(a, 0) {
+		case "binary_index":
+			xs, err := control.ParseBinaryIndex(rd)
+			if err != nil || len(xs) == 0 {
+				return "err"
+			}
+			x := xs[0]
+			add("Depends", x.GetDepends())
+			add("Pre-Depends", x.GetPreDepends())
+			add("Suggests", x.GetSuggests())
+			add("Breaks", x.GetBreaks())
+			add("Replaces", x.GetReplaces())
+			add("Conflicts", x.GetConflicts())
+			add("Built-Using", x.GetBuiltUsing())
+		case "source_index":
+			xs, err := control.ParseSourceIndex(rd)
+			if err != nil || len(xs) == 0 {
+				return "err"
+			}
+			x := xs[0]
+			add("Build-Depends", x.GetBuildDepends())
+			add("Build-Depends-Arch", x.GetBuildDependsArch())
+			add("Build-Depends-Indep", x.GetBuildDependsIndep())
+		default:
+			return "no-such-type"
+		}
+		return "ok " + strings.Join(out, " ")
+	}
+	// tgetdsc changes-text dsc-name dsc-text: both files in one directory; Changes.GetDSC must find the first listed
+	// *.dsc beside the .changes and return what ParseDscFile returns for it
+	ops["tgetdsc"] = func(a []string) string {
+		dir, err := ioutil.TempDir("/var/tmp", "verif-getdsc-")
+		if err != nil {
+			return "harness-error"
+		}
+		defer os.RemoveAll(dir)
+		cp := dir + "/x_1.0_amd64.changes"
+		ioutil.WriteFile(cp, []byte(arg(a, 0)), 0644)
+		if arg(a, 1) != "" {
+			ioutil.WriteFile(dir+"/"+arg(a, 1), []byte(arg(a, 2)), 0644)
+		}
+		c, err := control.ParseChangesFile(cp)
+		if err != nil {
+			return "changes-err"
+		}
+		d, err := c.GetDSC()
+		if err != nil {
+			if d != nil {
+				return "err-with-value"
+			}
+			return "none"
+		}
+		want, err := control.ParseDscFile(dir + "/" + arg(a, 1))
+		if err != nil {
+			return "dsc-err"
+		}
+		if d.Filename != dir+"/"+arg(a, 1) {
+			return "wrong-file " + hx(strings.TrimPrefix(d.Filename, dir))
+		}
+		if showRecord(reflect.ValueOf(*d)) != showRecord(reflect.ValueOf(*want)) {
+			return "diff"
+		}
+		return "same " + hx(d.Source)
+	}
 	ops["tdocfile"] = func(a []string) string {
 		text := arg(a, 1)
 		f, err := ioutil.TempFile("/var/tmp", "verif-doc-*")
